@@ -196,10 +196,10 @@ def project_problem(problem):
     sol = problem.solution
     return {
         "objective": project_function(problem.objective),
-        # by name: the property speaks of the function descriptions, not of the order in which a
-        # problem lists its constraints (from_hdf lists them in the alphabetical order of HDF5 groups)
-        "constraints": {c.name: project_function(c) for c in problem.constraints},
-        "observables": {c.name: project_function(c) for c in problem.observables},
+        # in the order in which the problem lists them: it is the order of the rows of the constraint vector
+        # the drivers see (and of the observables in the database)
+        "constraints": [[c.name, project_function(c)] for c in problem.constraints],
+        "observables": [[c.name, project_function(c)] for c in problem.observables],
         "solution": None if sol is None else {k: _plain(v) for k, v in sol.to_dict().items() if v is not None},
         "settings": {"minimize_objective": bool(problem.minimize_objective),
                      "ineq_tolerance": float(problem.tolerances.inequality),
@@ -211,25 +211,68 @@ def project_problem(problem):
     }
 
 
+def problem_diffs(got, want):
+    """the differences between two projected problems, as [(what, impl, spec)]: `what` names the part and,
+    inside it, the fields (or, for the lists of functions: names / order / <function>.<fields>)"""
+    out = []
+    for part, w in want.items():
+        g = got[part]
+        if g == w:
+            continue
+        if part in ("constraints", "observables"):
+            wn, gn = [n for n, _ in w], [n for n, _ in g]
+            if sorted(wn) != sorted(gn):
+                out.append((part + ":names", gn, wn))
+                continue
+            if wn != gn:
+                out.append((part + ":order", gn, wn))
+            gd = dict(map(tuple, g))
+            for n, d in w:
+                if gd[n] != d:
+                    fields = ",".join(sorted(k for k in set(d) | set(gd[n]) if d.get(k) != gd[n].get(k)))
+                    out.append((f"{part}:{n}.{fields}", gd[n], d))
+        elif isinstance(w, dict) and isinstance(g, dict):
+            out.append((part + ":" + ",".join(sorted(k for k in set(w) | set(g) if w.get(k) != g.get(k))), g, w))
+        else:
+            out.append((part, g, w))
+    return out
+
+
+def problem_text(variant):
+    """the alphabet of the names and expressions of the problem's functions"""
+    return "non_ascii" if variant % 8 >= 4 else "ascii"
+
+
 def make_problem(database=None, variant=0):
-    """A problem around `database` with an objective, constraints, an observable and a solution."""
+    """A problem around `database` with an objective, constraints, observables and a solution.
+    variant: with / without a solution (bit 0), a namespaced constraint name (bit 1), names and expressions with
+    characters outside ASCII (bit 2), constraints and observables added in alphabetical order or not (bit 3)."""
     from gemseo.algos.design_space import DesignSpace
     from gemseo.algos.optimization_problem import OptimizationProblem
     from gemseo.algos.optimization_result import OptimizationResult
     from gemseo.core.mdo_functions.mdo_function import MDOFunction
 
+    wide = problem_text(variant) == "non_ascii"
     space = DesignSpace()
     space.add_variable("x", 2, lower_bound=np.array([-10.0, -np.inf]), upper_bound=10.0, value=np.array([1.0, 0.5]))
     problem = OptimizationProblem(space, database=database)
-    problem.objective = MDOFunction(lambda x: float(x @ x), "f", jac=lambda x: 2 * x, expr="x'x",
-                                    input_names=["x"], dim=1)
+    problem.objective = MDOFunction(lambda x: float(x @ x), "f", jac=lambda x: 2 * x,
+                                    expr="\u2016x\u2016\u00b2 = x\u1d40x" if wide else "x'x", input_names=["x"], dim=1)
     # a namespaced constraint name (":" is the namespace separator) in half of the variants with a solution
     g = "ns:g" if variant % 4 >= 2 else "g"
-    problem.add_constraint(MDOFunction(lambda x: x[:1] - 1, g, expr="x[0]-1", input_names=["x"], dim=1),
-                           constraint_type="ineq")
-    problem.add_constraint(MDOFunction(lambda x: x[1:] - 0.5, "c", expr="x[1]-0.5", input_names=["x"], dim=1),
-                           constraint_type="eq", value=0.25)
-    problem.add_observable(MDOFunction(lambda x: x.sum(), "obj", input_names=["x"], dim=1))
+    constraints = [
+        (MDOFunction(lambda x: x[:1] - 1, g, expr="x[0]-1", input_names=["x"], dim=1), {"constraint_type": "ineq"}),
+        (MDOFunction(lambda x: x[1:] - 0.5, "c", expr="x[1]\u2212\u00bd" if wide else "x[1]-0.5", input_names=["x"], dim=1),
+         {"constraint_type": "eq", "value": 0.25})]
+    observables = [MDOFunction(lambda x: x.sum(), "obs_\u03b7" if wide else "obj", input_names=["x"], dim=1),
+                   MDOFunction(lambda x: x.prod(), "aux", input_names=["x"], dim=1)]
+    if variant % 16 >= 8:
+        constraints.sort(key=lambda c: c[0].name)
+        observables.sort(key=lambda f: f.name)
+    for function, options in constraints:
+        problem.add_constraint(function, **options)
+    for function in observables:
+        problem.add_observable(function)
     problem.tolerances.inequality = 0.0078125
     problem.tolerances.equality = 0.03125
     problem.differentiation_step = 0.001953125
@@ -244,7 +287,7 @@ def make_problem(database=None, variant=0):
 
 # ----------------------------------------------------------------------------- tours
 
-IO_ACTIONS = ("Export", "Reload", "Update", "ExportProblem", "ReloadProblem")
+IO_ACTIONS = ("Export", "Reload", "Update", "UpdateFrom", "ExportProblem", "ReloadProblem")
 
 
 def canon(x):
@@ -393,6 +436,10 @@ class Replayer:
         self.node = node
         self.path = self.workdir / f"{tag}.h5"
         self.full = self.workdir / f"{tag}-full.h5"
+        self.other = self.workdir / f"{tag}-other.h5"  # the file of another database (UpdateFrom)
+        self.n_foreign = 0
+        self.merges = []      # what the other files read between two append exports to a non-empty file brought
+        self._merging = []
         self.viol = []
         self.soft = []
         self.soft_seen = set()
@@ -400,7 +447,7 @@ class Replayer:
         self.n_reloads = 0
 
     def cleanup(self):
-        for p in (self.path, self.full):
+        for p in (self.path, self.full, self.other):
             if p.exists():
                 os.remove(p)
 
@@ -479,16 +526,11 @@ class Replayer:
             return False
         # a difference in the description does not disturb the database: the walk goes on, and each kind
         # of difference is reported once per walk (with the history at which it first showed)
-        for part, want in self.reference.items():
-            if got[part] != want:
-                what = part
-                if isinstance(want, dict) and isinstance(got[part], dict):
-                    what += ":" + ",".join(sorted(k for k in set(want) | set(got[part])
-                                                  if want.get(k) != got[part].get(k)))
-                if what not in self.soft_seen:
-                    self.soft_seen.add(what)
-                    self.soft.append({"clause": "ProblemRoundTrip", "what": what, "ops": list(ops),
-                                      "detail": {"impl": got[part], "spec": want}})
+        for what, impl, spec in problem_diffs(got, self.reference):
+            if what not in self.soft_seen:
+                self.soft_seen.add(what)
+                self.soft.append({"clause": "ProblemRoundTrip", "what": what, "ops": list(ops),
+                                  "text": problem_text(self.variant), "detail": {"impl": impl, "spec": spec}})
         return True
 
     def run(self, edge_ids, final=True):
@@ -509,6 +551,7 @@ class Replayer:
         steps = 0
         for k in edge_ids:
             src, dst, act, args = g.edges[k]
+            self._src = src
             state = g.states[dst]
             ops.append(op_name(act, args))
             if act in ("Store", "StoreMore"):
@@ -549,11 +592,29 @@ class Replayer:
                 ok, _ = self.guard("RoundTrip", ops, database.update_from_hdf, self.path, hdf_node_path=self.node)
                 if ok:
                     self.n_reloads += 1
+            elif act == "UpdateFrom":
+                # another file, written by another database whose content is the action's parameter
+                # (written by gemseo too: an exception there is an export that failed)
+                ok, brought = self.guard("RoundTrip", ops + ["ExportOfTheOtherDatabase"], self.write_other, args[0], state)
+                if ok:
+                    ops[-1] = "UpdateFrom(" + brought + ")"
+                    before = g.states[src]
+                    if before["exists"] and len(as_map(before["file"])) > 0:
+                        self._merging.append(brought)
+                    ok, _ = self.guard("RoundTrip", ops, database.update_from_hdf, self.other, hdf_node_path=self.node)
+                if ok:
+                    self.n_reloads += 1
             else:
                 raise RuntimeError(f"unknown action {act}")
             if not ok:
                 return steps, state
             steps += 1
+            if act in ("Export", "ExportProblem"):
+                if args[0]:
+                    self.merges += self._merging
+                self._merging = []
+            elif act in ("Reload", "ReloadProblem"):
+                self._merging = []
             d = self.diff_db(project_db(database), spec_db(state["db"]))
             if d:
                 clause = "Store" if act in ("Store", "StoreMore") else "RoundTrip"
@@ -563,12 +624,43 @@ class Replayer:
             self.final_check(ops, state, database)
         return steps, state
 
+    def write_other(self, d, state):
+        """d = <<<<key, names>>, ...>>: a new Database with these entries (values: those of the destination
+        state, i.e. Val(key, name) with the kind of the name) written to the other file -- by one full
+        export, or incrementally (an append export after every store), alternately.  Returns what the file
+        brings to the working database's file, for the signature: new points / new outputs / nothing."""
+        from gemseo.algos.database import Database
+
+        src = {e["key"]: e for e in as_seq(self.g.states[self._src]["db"])}
+        dst = {e["key"]: e for e in as_seq(state["db"])}
+        if self.other.exists():
+            os.remove(self.other)
+        self.n_foreign += 1
+        incremental = (self.variant + self.n_foreign) % 2 == 1
+        foreign = Database()
+        brings = set()
+        for key, names in d:
+            outs_spec = dst[key]["outs"]
+            outputs = {str(n): build(str(n), outs_spec[n]["kind"], outs_spec[n]["val"]) for n in sorted(names, reverse=True)}
+            foreign.store(POINTS[key].copy(), outputs)
+            if key not in src:
+                brings.add("points")
+            elif set(map(str, names)) - set(map(str, () if isinstance(src[key]["outs"], tuple) else src[key]["outs"])):
+                brings.add("outputs")
+            if incremental:
+                foreign.to_hdf(self.other, append=True, hdf_node_path=self.node)
+        if not incremental:
+            foreign.to_hdf(self.other, append=False, hdf_node_path=self.node)
+        return "+".join(sorted(brings)) or "nothing"
+
     def final_check(self, ops, state, database):
         """AppendEqualsFull: one more append export of the walk's file against one full export of the same
         database into a new file; both must reload to the specification's db."""
         from gemseo.algos.database import Database
 
         want_db = spec_db(state["db"])
+        self.merges += self._merging
+        self._merging = []
         ops = ops + ["Export(append)", "FullExport"]
         ok, _ = self.guard("AppendEqualsFull", ops, database.to_hdf, self.path, append=True, hdf_node_path=self.node)
         if not ok:
@@ -647,4 +739,4 @@ def run_walk(job):
         v["detail"]["variant"] = idx // 2
         v["detail"]["node"] = node or "(root)"
     return {"idx": idx, "steps": steps, "len": len(edge_ids), "exports": r.n_exports, "reloads": r.n_reloads,
-            "viol": viol}
+            "viol": viol, "merges": r.merges}
